@@ -26,7 +26,7 @@ PROPS = {
     'C13': {'units': ['sym', 'symx'], 'kani': []},
     'C09': {'units': ['prep'], 'kani': []},
     'C08': {'units': ['mmcs', 'hash', 'mbind'], 'kani': []},
-    'C16': {'units': ['meta'], 'kani': []},
+    'C16': {'units': ['meta', 'vrfy'], 'kani': []},
     'C11': {'units': ['air', 'alu', 'run19'], 'kani': [], 'only': {'run19': r'execute_alu_op'}},
 }
 
@@ -138,9 +138,12 @@ META['C16'] = {
     'text': 'Deductive proof that the metadata validators accept exactly the well-formed metadata (TablePacking::validate and RowCounts::validate return Ok if and only if every lane count is '
             'positive, the minimum trace height is a power of two, the Horner packing is >= 2, every row count is positive), that the builder methods only produce well-formed metadata, and that '
             'the metadata prefix of verify_all_tables continues only if the proof-declared extension degree, binomial parameter and quintic flag EQUAL the verifier-derived ones, and hands the '
-            'verifier-derived parameter (not the proof\'s) to the rest of verification.',
-    'note': 'KERNEL: validators + metadata prefix. NOT decided: that the remaining self-declared fields (rows, packing, table list) cannot help a prover — that rests on the preprocessed-commitment '
-            'binding (C04, cryptographic); serde round-trip (derive macros) is outside any contract here. BatchStarkProof::validate is a callee contract (conjunction of the validators).',
+            'verifier-derived parameter (not the proof\'s) to the rest of verification. Unit vrfy: the WHOLE of BatchStarkProver::verify::<D> is under contract — its verdict is exactly the '
+            'batch verifier\'s verdict on AIRs rebuilt from (rows, packing, verifier-derived reduction, each registered plugin\'s reading of its entry), on lookup contexts DERIVED from those AIRs '
+            '(never read from the proof\'s common data, which is the one part serialization drops: hence the round-trip verdict), on the listed public values and the preprocessed binding.',
+    'note': 'NOT decided: that the remaining self-declared fields (rows, packing, table list) cannot help a prover — that rests on the preprocessed-commitment '
+            'binding (C04, cryptographic); the serde derive macros themselves are outside any contract here. BatchStarkProof::validate is a callee contract (conjunction of the validators). '
+            'p3_batch_stark::verify_batch is an external dependency: uninterpreted verdict + stated precondition.',
 }
 
 META['C07'] = {
